@@ -354,27 +354,37 @@ theorem tsd_reset_short_keeps_state (d : Dec) (data : List Nat) (h : data.length
 
 namespace Neg
 
-/-- **Boundary of the slot domain.** When a block ends at slot 65535 (`endTime = 65535`),
-`TSDDecoder.Next()` returns `true` forever: `startTime+idx <= endTime` is evaluated in `uint16`.
-The sequential loop therefore never terminates / reports slots that were never encoded. -/
-theorem tsd_next_never_false (d : Dec) (h : d.endTime = 65535) :
+/-- **Boundary of the slot domain.** While `TSDDecoder.Next()` evaluates `startTime+idx <= endTime` in
+`uint16` (regenerated fact `tsdNextWideCompare = false`), a block that ends at slot 65535 makes it
+return `true` forever: the sequential loop never terminates / reports slots that were never encoded. -/
+theorem tsd_next_never_false (d : Dec) (h : d.endTime = 65535) (hw : Generated.C14.tsdNextWideCompare = false) :
     d.next.1 = true ∧ d.next.2.endTime = 65535 := by
-  unfold Dec.next u16
+  unfold Dec.next nextKey u16
+  rw [hw]
   have : (d.startTime + d.idx) % 65536 ≤ d.endTime := by omega
-  rw [if_pos this]
-  exact ⟨rfl, h⟩
+  simp only [Bool.false_eq_true, if_false, if_pos this]
+  exact ⟨trivial, h⟩
 
 def nextTimes : Nat → Dec → List Bool
   | 0, _ => []
   | n + 1, d => d.next.1 :: nextTimes n d.next.2
 
-theorem tsd_next_never_false_iter (n : Nat) (d : Dec) (h : d.endTime = 65535) :
-    nextTimes n d = List.replicate n true := by
+theorem tsd_next_never_false_iter (n : Nat) (d : Dec) (h : d.endTime = 65535)
+    (hw : Generated.C14.tsdNextWideCompare = false) : nextTimes n d = List.replicate n true := by
   induction n generalizing d with
   | zero => rfl
   | succ n ih =>
-    obtain ⟨h1, h2⟩ := tsd_next_never_false d h
+    obtain ⟨h1, h2⟩ := tsd_next_never_false d h hw
     simp [nextTimes, h1, ih d.next.2 h2, List.replicate_succ]
+
+/-- with the comparison done in `int` (the repair in fixes/C14-tsd-next-uint16-wrap.patch) `Next()` does
+return `false` once all slots of a block ending at 65535 were consumed -/
+theorem tsd_next_stops_when_wide (d : Dec) (hw : Generated.C14.tsdNextWideCompare = true)
+    (h : d.endTime < d.startTime + d.idx) : d.next = (false, d) := by
+  unfold Dec.next nextKey
+  rw [hw]
+  have : ¬ (d.startTime + d.idx ≤ d.endTime) := by omega
+  simp [this]
 
 /-- the witness the harness replays on the implementation (case 0 of every run): block
 `[65534, 65535]` holding 1.5 and -2.25 -/
@@ -385,7 +395,10 @@ theorem witness_is_encoder_output :
     tsdEncode 65534 [some 4609434218613702656, some 13835621005235585024] = some witnessBytes := by
   decide +kernel
 
-theorem witness_next_six_times : nextTimes 6 (Dec.fresh witnessBytes) = [true, true, true, true, true, true] := by
+/-- six calls of `Next()` on the 2-slot witness block: all `true` with the `uint16` comparison, two with the `int` one -/
+theorem witness_next_six_times : nextTimes 6 (Dec.fresh witnessBytes) =
+    (if Generated.C14.tsdNextWideCompare then [true, true, false, false, false, false]
+     else [true, true, true, true, true, true]) := by
   decide +kernel
 
 end Neg
@@ -788,6 +801,133 @@ theorem tsd_stream_roundtrip (s e : Nat) (fs : List Stream.Field) (pooled : Dec)
 
 end StreamCodec
 
+/-! ## 7f. aborted use, decode-into-any-target, width of the delta codec, views of internal buffers -/
+
+/-- **Reset from ANY prior writer state.** Whatever was written before — also when the use was aborted with
+1–7 unflushed bits pending and `Flush`/`Bytes()` never called — `bit.Writer.Reset` gives the fresh writer,
+`TSDEncoder.Reset` re-arms bit writer, bit buffer and XOR encoder, and `RestWithStartTime` (the pool path)
+gives exactly `NewTSDEncoder(s)`. `ops` is not restricted to valid calls. -/
+theorem writer_reset_from_any_state_eq_fresh (w : Writer) (ops : List BitOp) (e : Enc) (slots : Slots) (s : Nat) :
+    (runWriter w ops).reset [] = Writer.fresh ∧
+    ((e.appendAll slots).reset.w = Writer.fresh ∧ (e.appendAll slots).reset.values = Xor.Enc.fresh) ∧
+    (e.appendAll slots).resetWithStartTime s = Enc.fresh s := ⟨rfl, ⟨rfl, rfl⟩, rfl⟩
+
+/-- non-vacuity: an aborted use really leaves a partial byte behind (3 bits pending, current byte 0xa0) -/
+example : (runWriter Writer.fresh [.bit true, .bit false, .bit true]).count = 5 ∧
+    (runWriter Writer.fresh [.bit true, .bit false, .bit true]).cur = 160 ∧
+    ((Enc.fresh 7).appendAll [some 1, some 2, some 3]).w.count ≠ 8 := by decide +kernel
+
+/-- `Flush` does not re-arm the writer (that is `Reset`'s job): pending byte and bit position stay -/
+theorem flush_keeps_writer_state (w : Writer) : w.flush.cur = w.cur ∧ w.flush.count = w.count := by
+  unfold Writer.flush; split <;> exact ⟨rfl, rfl⟩
+
+/-- **decode_into_any_target = decode_into_fresh.** For every decoder in scope the result of arming it
+with a byte string does not depend on what the target object held before: fixed-offset `Unmarshal`,
+delta `Reset`, TSD `ResetWithTimeRange` (any bytes) and `Reset` (more than the header), XOR decoder
+`Reset` + bit reader re-pointing. The roaring bitmap (`FromBuffer` into a reused bitmap, including the
+empty bitmap) is an external library: see `external_decode_into_any_target` (contract) — exercised on
+the real library by the harness with reused, non-empty targets and the empty bitmap. -/
+theorem decode_into_any_target_eq_fresh (data : List Nat) (s e : Nat)
+    (f1 f2 : FixedOffset.Dec) (p1 p2 : DeltaPack.Dec) (t1 t2 : Dec) (x1 : Xor.Dec) (r1 : Reader) :
+    f1.unmarshal data = f2.unmarshal data ∧
+    p1.reset data = p2.reset data ∧
+    t1.resetWithTimeRange data s e = t2.resetWithTimeRange data s e ∧
+    (4 < data.length → t1.reset data = t2.reset data) ∧
+    x1.reset = Xor.Dec.fresh ∧ (r1.setBuf data).reset = Reader.fresh data := by
+  refine ⟨rfl, delta_decoder_reset_ignores_state p1 p2 data, ?_, ?_, rfl, rfl⟩
+  · rw [tsd_decoder_reset_range_eq_fresh t1, tsd_decoder_reset_range_eq_fresh t2]
+  · intro h; rw [tsd_decoder_reset_eq_fresh t1 data h, tsd_decoder_reset_eq_fresh t2 data h]
+
+/-- contract of an external codec that decodes INTO an existing target (roaring `FromBuffer`) -/
+structure ExternalCodecInto (α : Type) where
+  encode : α → List Nat
+  decodeInto : α → List Nat → Option α
+  roundtrip : ∀ target x, decodeInto target (encode x) = some x
+
+theorem external_decode_into_any_target {α : Type} (c : ExternalCodecInto α) (t1 t2 x : α) :
+    c.decodeInto t1 (c.encode x) = c.decodeInto t2 (c.encode x) := by
+  rw [c.roundtrip, c.roundtrip]
+
+example : ExternalCodecInto (List Nat) := { encode := id, decodeInto := fun _ b => some b, roundtrip := fun _ _ => rfl }
+
+/-- **Width of the delta codec.** For every list of deltas, in any order of its extremes, and every
+`minDelta` the encoder may hold, the common bit width computed in `Bytes()` covers `uint32(delta − minDelta)`
+of ALL deltas and is at most 32 (`delta_roundtrip` — every `int32` list, sorted or not — rests on this). -/
+theorem delta_width_covers_all_deltas (m : Int) (ds : List Int) :
+    DeltaPack.widthOf (DeltaPack.maxDD m ds) ≤ 32 ∧
+    ∀ d ∈ ds, toU32 (d - m) < 2 ^ DeltaPack.widthOf (DeltaPack.maxDD m ds) := by
+  obtain ⟨_, hlt, hge⟩ := DeltaPack.maxDD_spec m ds 0 (by omega)
+  rw [← DeltaPack.maxDD_eq] at hlt hge
+  obtain ⟨hfit, h32⟩ := DeltaPack.lt_pow_widthOf _ hlt
+  exact ⟨h32, fun d hd => Nat.lt_of_le_of_lt (hge d hd) hfit⟩
+
+/-- largest delta first, smallest delta first, one delta only: all round trip -/
+example : ∀ vs ∈ [[100, 0, 90, 95], [0, 100, 99, 98, 200], [7, -2147483648], [-5, 5]],
+    ∃ v0 rest, vs = v0 :: rest ∧ ∃ d', DeltaPack.Dec.nextN (rest.length + 1)
+      ((DeltaPack.Dec.fresh []).reset ((DeltaPack.Enc.fresh.addAll (v0 :: rest)).bytes).1) = (v0 :: rest, d') := by
+  intro vs hvs
+  simp only [List.mem_cons, List.mem_nil_iff, or_false] at hvs
+  rcases hvs with rfl | rfl | rfl | rfl
+  · exact ⟨_, _, rfl, (delta_roundtrip DeltaPack.Enc.fresh _ 100 [0, 90, 95] DeltaPack.Enc.fresh_clean (by omega)
+      (by intro v hv; simp at hv; omega) (by decide)).2.imp fun _ h => h.1⟩
+  · exact ⟨_, _, rfl, (delta_roundtrip DeltaPack.Enc.fresh _ 0 [100, 99, 98, 200] DeltaPack.Enc.fresh_clean (by omega)
+      (by intro v hv; simp at hv; omega) (by decide)).2.imp fun _ h => h.1⟩
+  · exact ⟨_, _, rfl, (delta_roundtrip DeltaPack.Enc.fresh _ 7 [-2147483648] DeltaPack.Enc.fresh_clean (by omega)
+      (by intro v hv; simp at hv; omega) (by decide)).2.imp fun _ h => h.1⟩
+  · exact ⟨_, _, rfl, (delta_roundtrip DeltaPack.Enc.fresh _ (-5) [5] DeltaPack.Enc.fresh_clean (by omega)
+      (by intro v hv; simp at hv; omega) (by decide)).2.imp fun _ h => h.1⟩
+
+/-- **Views of internal buffers.** `Bytes()` / `BytesWithoutTime()` / `BufferWriter.Bytes()` return a view of
+an internal `bytes.Buffer`. A view equals a copy as long as no byte that was already handed to the
+buffer is rewritten: the bit writer only ever appends to its output, whatever is written next, so what was
+returned stays unchanged until the buffer is `Reset` (checked on the implementation after further writes,
+oracle key `bytes-result-changed-by-later-writes`). -/
+theorem bitwriter_never_rewrites_output : ∀ (ops : List BitOp) (w : Writer),
+    ∃ t, (runWriter w ops).out = w.out ++ t ∧ ∃ t', (runWriter w ops).flush.out = w.out ++ t' := by
+  intro ops
+  induction ops with
+  | nil =>
+    intro w
+    obtain ⟨t', h'⟩ := DeltaPack.flush_out w
+    exact ⟨[], by simp [runWriter], t', h'⟩
+  | cons o ops ih =>
+    intro w
+    cases o with
+    | bit b =>
+      obtain ⟨t1, h1⟩ := DeltaPack.writeBit_out w b
+      obtain ⟨t2, h2, t3, h3⟩ := ih (w.writeBit b)
+      exact ⟨t1 ++ t2, by rw [runWriter, h2, h1, List.append_assoc], t1 ++ t3, by rw [runWriter, h3, h1, List.append_assoc]⟩
+    | bits u n =>
+      obtain ⟨t1, h1⟩ := DeltaPack.writeBits_out w u n
+      obtain ⟨t2, h2, t3, h3⟩ := ih (w.writeBits u n)
+      exact ⟨t1 ++ t2, by rw [runWriter, h2, h1, List.append_assoc], t1 ++ t3, by rw [runWriter, h3, h1, List.append_assoc]⟩
+    | byte b =>
+      obtain ⟨t1, h1⟩ := DeltaPack.writeByte_out w b
+      obtain ⟨t2, h2, t3, h3⟩ := ih (w.writeByte b)
+      exact ⟨t1 ++ t2, by rw [runWriter, h2, h1, List.append_assoc], t1 ++ t3, by rw [runWriter, h3, h1, List.append_assoc]⟩
+
+/-- the same one level up: appending further slots to a TSD encoder leaves everything its bit buffer
+already holds in place (`BytesWithoutTime()` taken earlier is a prefix-stable view) -/
+theorem tsd_bit_buffer_append_only (e : Enc) (slot : Option Nat) : ∃ t, (e.appendSlot slot).w.out = e.w.out ++ t := by
+  have tr : ∀ {a b c : Writer}, (∃ t, b.out = a.out ++ t) → (∃ t, c.out = b.out ++ t) → ∃ t, c.out = a.out ++ t := by
+    intro a b c ⟨t1, h1⟩ ⟨t2, h2⟩
+    exact ⟨t1 ++ t2, by rw [h2, h1, List.append_assoc]⟩
+  cases slot with
+  | none => exact DeltaPack.writeBit_out e.w false
+  | some v =>
+    have h1 := DeltaPack.writeBit_out e.w true
+    simp only [Enc.appendSlot, Enc.appendValue, Enc.appendTime]
+    unfold Xor.Enc.write
+    dsimp only
+    split
+    · exact tr h1 (DeltaPack.writeBits_out _ _ _)
+    · split
+      · exact tr h1 (DeltaPack.writeBit_out _ _)
+      · split
+        · exact tr (tr (tr h1 (DeltaPack.writeBit_out _ _)) (DeltaPack.writeBit_out _ _)) (DeltaPack.writeBits_out _ _ _)
+        · exact tr (tr (tr (tr (tr h1 (DeltaPack.writeBit_out _ _)) (DeltaPack.writeBit_out _ _))
+            (DeltaPack.writeBits_out _ _ _)) (DeltaPack.writeBits_out _ _ _)) (DeltaPack.writeBits_out _ _ _)
+
 /-! ## 7e. the pools: no object is handed to two holders -/
 
 section Pools
@@ -909,6 +1049,15 @@ theorem pool_calls_expected :
     Generated.C14.snappyWriterBytesCalls = ["buffer.Bytes", "len", "make", "copy", "buffer.Reset", "writer.Reset"] ∧
     Generated.C14.snappyReaderUncompressCalls = ["defer:?", "compressed.Write", "io.Copy", "decompressed.Bytes"] :=
   ⟨rfl, rfl, rfl, rfl, rfl, rfl, rfl, rfl⟩
+
+/-- `bit.Writer.Reset` re-arms target, pending byte AND bit position; `Flush` assigns nothing (it does not
+re-arm the writer — `flush_keeps_writer_state`); `bit.Reader.Reset` clears err, count and b -/
+theorem bit_writer_fields_expected :
+    Generated.C14.bitWriterResetFields = ["w", "b[0]", "count"] ∧
+    Generated.C14.bitWriterFlushFields = [] ∧
+    Generated.C14.bitWriterWriteBitFields = ["b[0]|=", "b[0]", "count"] ∧
+    Generated.C14.bitWriterWriteByteFields = ["b[0]|=", "b[0]"] ∧
+    Generated.C14.bitReaderResetFields = ["err", "count", "b"] := ⟨rfl, rfl, rfl, rfl, rfl⟩
 
 theorem tsd_stream_reader_calls_expected :
     Generated.C14.newTSDStreamReaderCalls = ["stream.NewReader", "reader.ReadUint16", "reader.ReadUint16", "GetTSDDecoder"] ∧
